@@ -581,3 +581,10 @@ package db
 //@   tolerates call#1 GetValue "an error means that the field has never been set on the old version of the document (handled by the case split)"
 //@   tolerates call#2 GetValue "an error means that the field is not set on the new version either (handled by the case split)"
 //@   tags C07
+//@
+//@ // ===== C03: a subscription evaluates its selection at the commit that triggered it
+//@ func (*DB).handleSubscription$1
+//@   assert before call#1 ToSelect: arg1 == evt.DocID && arg2 == res(Cid.String, 1, 0) && callarg(Cid.String, 1, 0) == evt.Cid
+//@   assert before call#1 RunSelection: arg2 == res(ToSelect, 1, 0)
+//@   modifies failed
+//@   tags C03
